@@ -63,7 +63,7 @@ def build(rng):
     sess = [net.PeerSession() for _ in SOURCES]
     pat = []
     for _ in range(rng.choice((0, 1, 2, 2, 3, 4, 6, 8))):
-        pl = rng.choice(("random", "random", "before-start", "d-eps", "d:before", "d:after", "d+eps", "between"))
+        pl = rng.choice(("random", "random", "before-start", "d-eps", "d:before", "d:after", "d+eps", "between", "d-res"))
         j = rng.randrange(len(rounds))
         rank = BEFORE
         if pl == "random":
@@ -73,8 +73,9 @@ def build(rng):
         elif pl == "between":
             t = (rounds[j] + (rounds[j + 1] if j + 1 < len(rounds) else rounds[j] + 0.5)) / 2 + 2.0 ** -9
         else:
+            # d-res: less than a clock resolution ahead of the round; the loop then runs the round in that iteration already
             t, rank = {"d-eps": (rounds[j] - EPS, BEFORE), "d:before": (rounds[j], BEFORE), "d:after": (rounds[j], AFTER),
-                       "d+eps": (rounds[j] + EPS, BEFORE)}[pl]
+                       "d+eps": (rounds[j] + EPS, BEFORE), "d-res": (rounds[j] - RES / 2, BEFORE)}[pl]
         svc = rng.choice(cands) if rng.random() < 0.9 else rng.choice(SERVICES)
         ttl = rng.choice((0, 1, 1, 2, FOREVER, FOREVER))
         src = rng.randrange(len(SOURCES))
@@ -277,12 +278,18 @@ def judge_segment(ctx, sc, sent, t_stop, replay, problems=()):
             ctx.count("event_at_round_after")
         elif e[5] in ("d-eps", "d+eps"):
             ctx.count("event_round_adjacent")
+        elif e[5] == "d-res":
+            ctx.count("event_within_resolution_before_round")
     tol = 4 * RES
     i = 0
     ended = False
     nontrivial = False
+    drift = 0.0  # "later rounds follow at doubling delays": each round is timed from the one observed before it
     for r, definite, maybe, nfound in expected:
+        r += drift
         obs = sent[i] if i < len(sent) and abs(sent[i]["t"] - r) <= tol else None
+        if obs is not None:
+            drift += obs["t"] - r
         if t_stop is not None and r >= t_stop - tol:
             if r > t_stop + tol and obs is None:
                 break  # the client was stopped before this round
@@ -338,7 +345,7 @@ def judge_segment(ctx, sc, sent, t_stop, replay, problems=()):
     if i < len(sent):
         m = sent[i]
         mech = "more-find-rounds-than-configured" if all(e["type"] == 0 for e in m["entries"]) else "unexpected-transmission"
-        if any(abs(m["t"] - r) > tol for r, *_ in expected) and all(e["type"] == 0 for e in m["entries"]):
+        if any(abs(m["t"] - r - drift) > tol for r, *_ in expected) and all(e["type"] == 0 for e in m["entries"]):
             mech = "find-round-off-schedule" if len(sent) <= len(expected) else mech
         bad(mech, at=m["t"], extra=len(sent) - i)
     return nontrivial
